@@ -80,6 +80,10 @@ CHECKS = {
  'C16': ('exploration', 'runtime monitor: fresh-interpreter solo baselines as oracle; history leg (all sequences of length <= 2 + random longer ones in one process); deterministic cooperative scheduler over two real threads enumerating ALL interleavings of get_record / write (/ finish) steps by stateless DFS; preemption stress with sys.monitoring LINE-event yield injection; module-state snapshot (advisory)',
          'Every unordered pair of 14 scenarios (successes and every failure class) is run under every interleaving of its iterator / writer steps, and every short history is replayed in one process; each result must equal the result of the same query alone in a fresh interpreter; held on the schedules and histories observed.',
          'Exhaustive at the granularity of iterator / writer calls (what the statement names) on 2-record tables (quick) and 3/4-record tables (thorough, capped); statement-level preemption is sampled, bytecode-level is not explored. The JS port keeps its context in a module global (documented) and is not claimed.', 'DESIGN.md#c16'),
+
+ 'C19': ('exploration', 'runtime monitor: reference-model oracle on language-neutral structured queries rendered to JS and executed by the node driver, with array snapshot monitors (deep JSON, row identity, scribble test); two known JS findings classified by mechanism',
+         'Thousands of generated queries covering select / where / order / distinct / top / limit / aggregates / joins / update / except / unnest / header naming run on the real JS engine and are compared with the independent interpreter; the caller\'s arrays are snapshotted around every call; held on the executions observed.',
+         'Trusted: rv/model/refsem.py; the language-neutral vocabulary of rv/model/qast.py.', 'DESIGN.md#c19'),
 }
 
 NOT_YET = 'check not registered yet (machinery under construction; see DESIGN.md section 3a build order)'
